@@ -254,6 +254,52 @@ theorem C10_sha2 (fn : ShaFn) (len : Option Nat) :
   · cases fn <;> simp [h, ShaOut.bits]
   · cases fn <;> simp [h, ShaOut.bits]
 
+/-! ### alias reuse in JOIN … ON -/
+
+/-- **Every join is decided on its own**: for every alias set and every join list, the i-th join's ON is rewritten
+    iff IT names a select alias as a bare left operand — independent of what the other joins look like (no ON,
+    USING, compound, parenthesised), before or after it -/
+theorem C10_alias_in_join (aliases : List Nat) (js : List JoinOn) :
+    (aliasInJoin aliases js).length = js.length ∧
+    ∀ i : Nat, (aliasInJoin aliases js)[i]? = (js[i]?).map (rewriteJoin aliases) := by
+  induction js with
+  | nil => exact ⟨rfl, fun i => by simp [aliasInJoin]⟩
+  | cons j js ih =>
+    refine ⟨by simp [aliasInJoin, ih.1], fun i => ?_⟩
+    cases i with
+    | zero => simp [aliasInJoin]
+    | succ i => simpa [aliasInJoin] using ih.2 i
+
+/-- a loop that leaves at the first join with nothing to substitute misses every later join -/
+theorem C10_alias_in_join_no_break :
+    aliasInJoin [1] [.noOn, .aliasLeft 1] = [false, true] ∧ aliasInJoinBreak [1] [.noOn, .aliasLeft 1] = [false, false] ∧
+    aliasInJoin [1] [.other, .aliasLeft 1, .aliasLeft 2] = [false, true, false] := by decide
+
+/-! ### ARRAY_AGG -/
+
+/-- ARRAY_AGG collects the non-NULL inputs — when there is at least one -/
+theorem C10_array_agg_partial (xs : List (Option Int)) (h : xs.filterMap id ≠ []) : arrayAggImpl xs = arrayAggSpec xs := by
+  unfold arrayAggImpl arrayAggSpec
+  cases hx : xs.filterMap id with
+  | nil => exact absurd hx h
+  | cons a l => rfl
+
+/-- C10/array-agg-empty-null — over no (non-NULL) rows the result is NULL, documented an empty ARRAY -/
+theorem finding_array_agg_empty : arrayAggImpl [none] = none ∧ arrayAggSpec [none] = some [] := by decide
+
+/-- C10/array-agg-within-group-keeps-nulls — the WITHIN GROUP rewrite has no NULL filter: NULL inputs appear in the
+    ARRAY (documented: omitted) -/
+theorem finding_array_agg_within_group_nulls :
+    arrayAggWithinImpl [some 1, none] = [some 1, none] ∧ arrayAggSpec [some 1, none] = some [1] := by decide
+
+/-! ### DATEDIFF (year / quarter / month) -/
+
+/-- boundary counting is additive and antisymmetric: DATEDIFF(u, a, c) = DATEDIFF(u, a, b) + DATEDIFF(u, b, c),
+    DATEDIFF(u, a, b) = −DATEDIFF(u, b, a), DATEDIFF(u, a, a) = 0 — the relations the tie checks on DuckDB's `date_diff` -/
+theorem C10_datediff_additive (u : DUnit) (a b c : Int × Int) :
+    dateDiffYM u a c = dateDiffYM u a b + dateDiffYM u b c ∧ dateDiffYM u a b = -dateDiffYM u b a ∧ dateDiffYM u a a = 0 := by
+  unfold dateDiffYM; omega
+
 /-! ### TRIM -/
 
 /-- TRIM(s) strips blanks -/
